@@ -115,10 +115,16 @@ structure Dev where
   litAlias : Bool
   /-- int/float comparisons convert the int to float64 first (rounds above 2^53) -/
   cmpFloat : Bool
+  /-- `cond`/`evalValue`: a list value that is not a function call is handed out by reference (the plan's
+  own list), also where other literals are copied -/
+  condListAlias : Bool
   deriving DecidableEq, Inhabited
 
-def Dev.current : Dev := ⟨true, true, true, true, true⟩
-def Dev.none : Dev := ⟨false, false, false, false, false⟩
+/-- the code as it is: since 312106f, e5d206a, fb1d065, 52cf3c4 the first four deviations are repaired -/
+def Dev.current : Dev := ⟨false, false, false, false, true, true⟩
+/-- the code before those four commits -/
+def Dev.before : Dev := ⟨true, true, true, true, true, true⟩
+def Dev.none : Dev := ⟨false, false, false, false, false, false⟩
 
 /-- iteration order of a Go map: how the members are visited -/
 abbrev MapOrd := List (Bytes × Val) → List (Bytes × Val)
